@@ -9,6 +9,8 @@ define_language! {
         F(Slot, Slot) = "f",
         F3(Slot, Slot, Slot) = "f3",
         F4(Slot, Slot, Slot, Slot) = "f4",
+        F5(Slot, Slot, Slot, Slot, Slot) = "f5",
+        F6(Slot, Slot, Slot, Slot, Slot, Slot) = "f6",
         V(Slot) = "v",
         C() = "c",
         D() = "d",
